@@ -285,6 +285,29 @@ def _sequence_cases(tier):
                    "payload": {"mode": "sequence", "doc": _sequence_doc(), "first": first, "asynchronous": asynchronous, "depth": depth}}
 
 
+CLIENT_ACTIONS = ["call(all)", "call(unset)", "with_headers#1", "with_headers#2", "with_headers#3", "with_cookies#1", "with_cookies#2", "with_timeout", "touch", "enter"]
+CLIENT_EXTRAS = {"with_headers#1": ("headers", {"x-extra": "e1"}), "with_headers#2": ("headers", {"x-more": "e2"}), "with_headers#3": ("headers", {"x-extra": "e3"}),
+                 "with_cookies#1": ("cookies", {"ck": "cv"}), "with_cookies#2": ("cookies", {"ck2": "cv2"})}
+
+
+def _client_doc():
+    ok = {"200": {"description": "ok"}}
+    s = {"type": "string"}
+    paths = {"/a": {"get": {"operationId": "opA", "responses": ok, "security": [{"bearer": []}], "parameters": [
+        {"name": "q", "in": "query", "schema": s}, {"name": "h", "in": "header", "schema": s}, {"name": "c", "in": "cookie", "schema": s}]}}}
+    return gen.base_doc(None, paths=paths, components={"securitySchemes": {"bearer": {"type": "http", "scheme": "bearer"}}})
+
+
+def _client_sequence_cases(tier):
+    """Sequences of client derivations (with_headers / with_cookies / with_timeout), context entry and calls on an authenticated
+    client: every call carries the operation's arguments, the credential header and exactly the extras derived so far."""
+    depth = 4 if tier == "quick" else 5
+    for first in CLIENT_ACTIONS:
+        for asynchronous in (False, True):
+            yield {"labels": ["client-sequence", f"first={first}", "asyncio" if asynchronous else "sync", f"depth={depth}"],
+                   "payload": {"mode": "client-sequence", "doc": _client_doc(), "first": first, "asynchronous": asynchronous, "depth": depth}}
+
+
 CP_VARIANTS = [("page-size", "query"), ("page_size", "query"), ("page-size", "header"), ("page_size", "cookie"), ("PageSize", "query"), ("pageSize", "header")]
 
 
@@ -316,6 +339,7 @@ def cases(tier):
     yield from _matrix_cases()
     yield from _body_cases()
     yield from _sequence_cases(tier)
+    yield from _client_sequence_cases(tier)
     yield from _component_param_cases(tier)
     bound = 2 if tier == "quick" else 3
     n = 0
@@ -589,9 +613,142 @@ def _run_sequence(p):
     return {"violations": uniq, "outcome": "ok" if not uniq else "viol:call-depends-on-history", "nontrivial": steps > 0, "steps": steps}
 
 
+def _run_client_sequence(p):
+    import httpx
+    res = gen.generate(p["doc"])
+    if res.crash or res.rejected or len(res.endpoints) != 1:
+        return {"outcome": "client-doc-not-generated", "nontrivial": False}
+    viol, steps = [], 0
+    asynchronous = p["asynchronous"]
+    with Sandbox(res.pkg_tree()) as sb:
+        mod = wire.endpoint_module(sb, res.endpoints[0])
+        fn = getattr(mod, "asyncio_detailed" if asynchronous else "sync_detailed")
+        cap = wire.Capture()
+        calls = {"call(all)": {"q": "q1", "h": "h1", "c": "c1"}, "call(unset)": {}}
+
+        def observe(q):
+            s_ = wire.req_summary(q)
+            return {"method": s_["method"], "path": s_["path"], "query": s_["query"], "headers": sorted(h for h in s_["headers"] if h[0] != "cookie"),
+                    "cookies": sorted(q["cookies"].items())}
+
+        def run(seq):
+            """-> [(action, observation | ["raises", type])] for the call actions of seq, through one chain of clients."""
+            cap.take()
+            client = wire.make_client(sb, cap, authenticated=True)
+            made = [client]
+            entered = []
+            out = []
+
+            async def arun():
+                nonlocal client
+                try:
+                    for a in seq:
+                        if a in calls:
+                            try:
+                                await fn(client=client, **calls[a])
+                                out.append((a, [observe(q) for q in cap.take()]))
+                            except Exception as exc:  # noqa: BLE001
+                                cap.take()
+                                out.append((a, ["raises", type(exc).__name__]))
+                        elif a in CLIENT_EXTRAS:
+                            what, val = CLIENT_EXTRAS[a]
+                            client = getattr(client, "with_" + what)(dict(val))
+                            made.append(client)
+                        elif a == "with_timeout":
+                            client = client.with_timeout(httpx.Timeout(5.0))
+                            made.append(client)
+                        elif a == "touch":
+                            client.get_async_httpx_client()
+                        elif a == "enter" and not any(client is e for e in entered):
+                            try:
+                                await client.__aenter__()
+                                entered.append(client)
+                            except RuntimeError:
+                                pass        # httpx refuses to open a client that already sent a request: not a generated-code matter
+                finally:
+                    for c in made:
+                        ac = getattr(c, "_async_client", None)
+                        if ac is not None:
+                            await ac.aclose()
+            if asynchronous:
+                wire.loop().run_until_complete(arun())
+                return out
+            try:
+                for a in seq:
+                    if a in calls:
+                        try:
+                            fn(client=client, **calls[a])
+                            out.append((a, [observe(q) for q in cap.take()]))
+                        except Exception as exc:  # noqa: BLE001
+                            cap.take()
+                            out.append((a, ["raises", type(exc).__name__]))
+                    elif a in CLIENT_EXTRAS:
+                        what, val = CLIENT_EXTRAS[a]
+                        client = getattr(client, "with_" + what)(dict(val))
+                        made.append(client)
+                    elif a == "with_timeout":
+                        client = client.with_timeout(httpx.Timeout(5.0))
+                        made.append(client)
+                    elif a == "touch":
+                        client.get_httpx_client()
+                    elif a == "enter" and not any(client is e for e in entered):
+                        try:
+                            client.__enter__()
+                            entered.append(client)
+                        except RuntimeError:
+                            pass
+            finally:
+                for c in made:
+                    sc = getattr(c, "_client", None)
+                    if sc is not None:
+                        sc.close()
+            return out
+
+        alone = {a: run([a])[0][1] for a in calls}
+        for a, obs in alone.items():
+            if obs[:1] == ["raises"] or len(obs) != 1 or ("authorization", "Bearer tok3n") not in [tuple(h) for h in obs[0]["headers"]]:
+                return {"violations": [{"oracle": "auth-header", "site": "header", "key": "client-sequence/fresh", "detail": f"{a} on a fresh authenticated client: {obs!r}"}],
+                        "outcome": "viol:auth-header", "nontrivial": True}
+        for rest in itertools.product(CLIENT_ACTIONS, repeat=p["depth"] - 1):
+            seq = (p["first"],) + rest
+            if not any(a in calls for a in seq):
+                continue
+            got = run(list(seq))
+            steps += len(seq)
+            extras = {"headers": {}, "cookies": {}}
+            gi = 0
+            for i, a in enumerate(seq):
+                if a in CLIENT_EXTRAS:
+                    what, val = CLIENT_EXTRAS[a]
+                    extras[what].update(val)
+                if a not in calls:
+                    continue
+                _a, obs = got[gi]
+                gi += 1
+                base = alone[a][0]
+                want = dict(base)
+                want["headers"] = sorted([list(h) for h in base["headers"]] + [[k, v] for k, v in extras["headers"].items()])
+                want["cookies"] = sorted(dict(list(map(tuple, base["cookies"])) + list(extras["cookies"].items())).items())
+                norm = lambda o: {**o, "headers": sorted(list(h) for h in o["headers"]), "cookies": sorted(tuple(c) for c in o["cookies"])} if isinstance(o, dict) else o  # noqa: E731
+                if obs[:1] == ["raises"] or len(obs) != 1 or norm(obs[0]) != norm(want):
+                    before = "+".join(sorted({x.split("#")[0].split("(")[0] for x in seq[:i]})) or "nothing"
+                    viol.append({"oracle": "client-derivation", "site": "asyncio" if asynchronous else "sync", "key": f"client-sequence/call-after-{before}",
+                                 "detail": f"call #{i + 1} of {list(seq)}: sent {json.dumps(obs)[:400]}, expected {json.dumps(norm(want))[:400]}"})
+                    break
+    seen, uniq = set(), []
+    for v in viol:
+        k = (v["oracle"], v["site"], v["key"])
+        if k not in seen:
+            seen.add(k)
+            uniq.append(v)
+    return {"violations": uniq, "outcome": "ok" if not uniq else "viol:client-derivation", "nontrivial": steps > 0, "steps": steps}
+
+
 def run_case(p):
     if p.get("mode") == "sequence":
         return _run_sequence(p)
+    if p.get("mode") == "client-sequence":
+        return _run_client_sequence(p)
     res = gen.generate(p["doc"], **p.get("options", {}))
     if res.crash:
         return {"skipped_crash": True, "outcome": f"crash:{res.crash['type']}", "nontrivial": False}
